@@ -76,8 +76,10 @@ pub fn run(seed: u64, sets: usize, nmax: usize, tw: &mut TraceWriter) -> (u64, u
                 }
             }
         }
-        // the stable phase: 6n rounds, every Ping acknowledged
-        for _ in 0..(6 * n) {
+        // the stable phase: 6n rounds, every Ping acknowledged (every 40th set: 300 rounds, so that the
+        // u8 probe number wraps around)
+        let rounds = if run % 40 == 7 { 300 } else { 6 * n };
+        for _ in 0..rounds {
             let Some(t) = probe_timer.take() else { break };
             now += 1500;
             let out = node.call(&Call::Timer(t), tw, now);
@@ -85,6 +87,36 @@ pub fn run(seed: u64, sets: usize, nmax: usize, tw: &mut TraceWriter) -> (u64, u
             grab(&out.effects, &mut probe_timer, &mut rm);
             ack_round(&mut node, &out.effects, own, codec, tw, &mut now);
             rounds_total += 1;
+        }
+        // every 40th set: 270 idle/active cycles, so that the u8 timer token wraps around
+        if run % 40 == 23 {
+            let ids: Vec<Id> = node.foca.iter_members().map(|m| *m.id()).collect();
+            for cyc in 0..270u32 {
+                let inc = cyc as u16;
+                // everyone Down -> Idle; forget them; everyone Alive again (higher incarnation) -> Active
+                now += 10;
+                let out = node.call(&Call::ApplyMany(ids.iter().map(|i| Member::new(*i, inc, State::Down)).collect(), false), tw, now);
+                let mut rm = vec![];
+                grab(&out.effects, &mut probe_timer, &mut rm);
+                for t in rm {
+                    now += 10;
+                    node.call(&Call::Timer(t), tw, now);
+                }
+                now += 10;
+                let out = node.call(&Call::ApplyMany(ids.iter().map(|i| Member::new(*i, inc + 1, State::Alive)).collect(), false), tw, now);
+                let mut rm = vec![];
+                grab(&out.effects, &mut probe_timer, &mut rm);
+                // a probe round in the new epoch, and the (stale) probe timer of the previous one if any
+                if cyc % 9 == 0 {
+                    if let Some(t) = probe_timer.take() {
+                        now += 1500;
+                        let out = node.call(&Call::Timer(t), tw, now);
+                        let mut rm = vec![];
+                        grab(&out.effects, &mut probe_timer, &mut rm);
+                        ack_round(&mut node, &out.effects, own, codec, tw, &mut now);
+                    }
+                }
+            }
         }
         sets_done += 1;
         tw.env("end", now, json!({"run": run}));
